@@ -35,15 +35,48 @@ type desc struct {
 	ResSet  bool     `json:"resources_set"`
 	Acc     []string `json:"access"`
 	AccSet  bool     `json:"access_set"`
-	Kinds   []string `json:"handler_kinds"`   // get call auth access new
-	HPat    string   `json:"handler_pattern"` // pattern the handler is registered on
-	Queue   string   `json:"queue"`           // "default" (= service name), "off", or a group name
+	Kinds   []string `json:"handler_kinds"`    // get call auth access new
+	HPat    string   `json:"handler_pattern"`  // pattern the handler is registered on
+	Layout  []hdl    `json:"layout,omitempty"` // further Handle calls (nested patterns, mounted muxes, root pattern)
+	Queue   string   `json:"queue"`            // "default" (= service name), "off", or a group name
 	Extra   int      `json:"extra_resetall"`
 	Live    bool     `json:"live,omitempty"` // real nats-server + forced reconnect
 	NatsSub string   `json:"nats_sub,omitempty"`
 	NatsSbj string   `json:"nats_subject,omitempty"`
 	IsNats  bool     `json:"nats_differential,omitempty"`
 }
+
+// hdl is one Handle call: on the service itself (Mount == "") or on a sub-mux mounted at Mount.
+type hdl struct {
+	Mount string   `json:"mount,omitempty"`
+	Pat   string   `json:"pattern"`
+	Kinds []string `json:"kinds"` // may be empty: a handler without any method
+}
+
+// handles returns every Handle call of the configuration.
+func (d desc) handles() []hdl {
+	var hs []hdl
+	if len(d.Kinds) > 0 {
+		hs = append(hs, hdl{Pat: d.HPat, Kinds: d.Kinds})
+	}
+	return append(hs, d.Layout...)
+}
+
+func merge(a, b string) string {
+	if a == "" {
+		return b
+	}
+	if b == "" {
+		return a
+	}
+	return a + "." + b
+}
+
+func (h hdl) full() string { return merge(h.Mount, h.Pat) }
+func (h hdl) res() bool {
+	return has(h.Kinds, "get") || has(h.Kinds, "call") || has(h.Kinds, "auth") || has(h.Kinds, "new")
+}
+func (h hdl) acc() bool { return has(h.Kinds, "access") }
 
 // ---- recording connection ----
 
@@ -144,24 +177,39 @@ func buildService(d desc, lg *recLogger) *res.Service {
 	s.SetLogger(lg)
 	s.SetWorkerCount(1)
 	s.SetInChannelSize(4)
-	var opts []res.Option
-	if has(d.Kinds, "get") {
-		opts = append(opts, res.GetResource(func(r res.GetRequest) { r.NotFound() }))
+	subs := map[string]*res.Mux{}
+	var mounts []string
+	for _, h := range d.handles() {
+		var opts []res.Option
+		if has(h.Kinds, "get") {
+			opts = append(opts, res.GetResource(func(r res.GetRequest) { r.NotFound() }))
+		}
+		if has(h.Kinds, "call") {
+			opts = append(opts, res.Call("m", func(r res.CallRequest) { r.OK(nil) }))
+		}
+		if has(h.Kinds, "auth") {
+			opts = append(opts, res.Auth("m", func(r res.AuthRequest) { r.OK(nil) }))
+		}
+		if has(h.Kinds, "access") {
+			opts = append(opts, res.Access(func(r res.AccessRequest) { r.AccessGranted() }))
+		}
+		if has(h.Kinds, "new") {
+			opts = append(opts, res.New(func(r res.NewRequest) { r.NotFound() }))
+		}
+		if h.Mount == "" {
+			s.Handle(h.Pat, opts...)
+			continue
+		}
+		sub := subs[h.Mount]
+		if sub == nil {
+			sub = res.NewMux("")
+			subs[h.Mount] = sub
+			mounts = append(mounts, h.Mount)
+		}
+		sub.Handle(h.Pat, opts...)
 	}
-	if has(d.Kinds, "call") {
-		opts = append(opts, res.Call("m", func(r res.CallRequest) { r.OK(nil) }))
-	}
-	if has(d.Kinds, "auth") {
-		opts = append(opts, res.Auth("m", func(r res.AuthRequest) { r.OK(nil) }))
-	}
-	if has(d.Kinds, "access") {
-		opts = append(opts, res.Access(func(r res.AccessRequest) { r.AccessGranted() }))
-	}
-	if has(d.Kinds, "new") {
-		opts = append(opts, res.New(func(r res.NewRequest) { r.NotFound() }))
-	}
-	if len(opts) > 0 {
-		s.Handle(d.HPat, opts...)
+	for _, m := range mounts {
+		s.Mount(m, subs[m])
 	}
 	var r, a []string
 	if d.ResSet {
@@ -192,7 +240,59 @@ func effQueue(d desc) string {
 }
 
 func hasRes(d desc) bool {
-	return has(d.Kinds, "get") || has(d.Kinds, "call") || has(d.Kinds, "auth") || has(d.Kinds, "new")
+	for _, h := range d.handles() {
+		if h.res() {
+			return true
+		}
+	}
+	return false
+}
+
+func hasAcc(d desc) bool {
+	for _, h := range d.handles() {
+		if h.acc() {
+			return true
+		}
+	}
+	return false
+}
+
+func layoutTerm(d desc) string {
+	var xs []string
+	for _, h := range d.handles() {
+		xs = append(xs, fmt.Sprintf("HReg %s %s %s", B(h.full()), Bool(h.res()), Bool(h.acc())))
+	}
+	return List(xs)
+}
+
+// onlyBelow reports whether some kind class (resource methods / access) is registered, but only on
+// handlers whose pattern lies strictly below the pattern of another registered handler.
+func onlyBelow(d desc) bool {
+	hs := d.handles()
+	below := func(h hdl) bool {
+		for _, o := range hs {
+			of, hf := o.full(), h.full()
+			if of != hf && (of == "" || strings.HasPrefix(hf, of+".")) {
+				return true
+			}
+		}
+		return false
+	}
+	for _, class := range []func(hdl) bool{hdl.res, hdl.acc} {
+		any, all := false, true
+		for _, h := range hs {
+			if class(h) {
+				any = true
+				if !below(h) {
+					all = false
+				}
+			}
+		}
+		if any && all {
+			return true
+		}
+	}
+	return false
 }
 
 type payload struct {
@@ -250,8 +350,8 @@ func caseTerm(d desc, o observed) string {
 	for i, p := range o.resets {
 		ps[i] = payloadTerm(p)
 	}
-	return fmt.Sprintf("SC %s %s %s %s %s %s %d %s %s %d %d",
-		B(d.Name), optBList(d.Res, d.ResSet), optBList(d.Acc, d.AccSet), Bool(hasRes(d)), Bool(has(d.Kinds, "access")),
+	return fmt.Sprintf("SC %s %s %s %s %s %d %s %s %d %d",
+		B(d.Name), optBList(d.Res, d.ResSet), optBList(d.Acc, d.AccSet), layoutTerm(d),
 		B(effQueue(d)), o.err, List(ss), List(ps), d.Extra, o.other)
 }
 
@@ -586,8 +686,21 @@ func main() {
 		ob, iv := runRecorded(d)
 		c := Case{Term: caseTerm(d, ob), Desc: d}
 		dist[kind]++
-		if d.HPat == "" && len(d.Kinds) > 0 {
-			c.Tags = append(c.Tags, "root-handler")
+		for _, h := range d.handles() {
+			if h.full() == "" {
+				c.Tags = append(c.Tags, "root-handler")
+				break
+			}
+		}
+		if onlyBelow(d) {
+			c.Tags = append(c.Tags, "kind-only-below-handler")
+			dist["kind-only-below-another-handler"]++
+		}
+		for _, h := range d.handles() {
+			if h.Mount != "" {
+				dist["mounted-mux"]++
+				break
+			}
 		}
 		for _, s := range ob.subs {
 			if s.rejected {
@@ -608,7 +721,7 @@ func main() {
 			eliminatedSeen++
 			dist["overlap-eliminated"]++
 		}
-		dflt := (!d.ResSet && hasRes(d)) || (!d.AccSet && has(d.Kinds, "access"))
+		dflt := (!d.ResSet && hasRes(d)) || (!d.AccSet && hasAcc(d))
 		if dflt {
 			dist["default-ownership-used"]++
 		}
@@ -771,6 +884,59 @@ func main() {
 				add("root-handler", desc{Name: n, Kinds: ks, HPat: "", Queue: "off", Extra: 1})
 			}
 		}
+		// (g) handler layouts: 1-3 Handle calls on nested patterns, placeholder / wildcard children,
+		// mounted muxes with and without a root handler, the root pattern; every handle gets every
+		// choice of kinds, so that a kind occurs only below another handler, only on a wildcard child,
+		// only inside a mounted mux, ...
+		shapes := [][]hdl{
+			{{Pat: "a"}},
+			{{Pat: "a.$id"}},
+			{{Pat: "a"}, {Pat: "a.$id"}},
+			{{Pat: "a"}, {Pat: "a.>"}},
+			{{Pat: "a"}, {Pat: "a.b"}},
+			{{Pat: "a.$id"}, {Pat: "a.$id.b"}},
+			{{Pat: "a.*"}, {Pat: "a.*.b"}},
+			{{Pat: ""}, {Pat: "a"}},
+			{{Pat: ""}, {Pat: "$id.b"}},
+			{{Pat: ">"}, {Pat: "a"}},
+			{{Pat: "a"}, {Mount: "m", Pat: ""}},
+			{{Mount: "m", Pat: ""}, {Mount: "m", Pat: "x"}},
+			{{Pat: "a"}, {Mount: "a.m", Pat: "x"}},
+			{{Pat: "a"}, {Mount: "a.m", Pat: ""}},
+			{{Mount: "m", Pat: "x"}, {Mount: "m", Pat: "x.$id"}},
+			{{Pat: "a"}, {Pat: "a.$id"}, {Pat: "a.$id.b"}},
+			{{Pat: ""}, {Pat: "a"}, {Mount: "a.m", Pat: "x.>"}},
+		}
+		choices := [][]string{{}, {"get"}, {"access"}, {"get", "access"}, {"call", "auth"}}
+		if !thorough {
+			choices = choices[:4]
+		}
+		li := 0
+		for _, sh := range shapes {
+			total := 1
+			for range sh {
+				total *= len(choices)
+			}
+			for code := 0; code < total; code++ {
+				l := make([]hdl, len(sh))
+				c := code
+				for i, h := range sh {
+					h.Kinds = choices[c%len(choices)]
+					c /= len(choices)
+					l[i] = h
+				}
+				d := desc{Name: names[li%len(names)], Layout: l, Queue: queues[li%len(queues)], Extra: li % 2}
+				if thorough {
+					for _, n := range names {
+						d.Name = n
+						add("handler-layout", d)
+					}
+				} else {
+					add("handler-layout", d)
+				}
+				li++
+			}
+		}
 		// (f) thorough: embedded nats-server
 		if thorough {
 			srv := startServer()
@@ -803,6 +969,6 @@ func main() {
 	extra["conn_rejected_subject_cases"] = rejectedSeen
 	extra["overlap_eliminated_cases"] = eliminatedSeen
 	Emit(o, "C09", "From GoRes Require Import Run.Run_C09.", "scase",
-		"service names {\"\",a,a.b} x ownership lists (nil / empty / exhaustive over valid entries of <= 2 tokens over {a,b,*,>} with <= 2 entries quick, <= 3 thorough / random <= 4 entries of <= 3 tokens with duplicates and nesting / malformed entries) x handler kinds x handler pattern x queue group default/off/named x 0-2 further ResetAll; thorough adds an embedded nats-server differential of subject validity and matching and live reconnect runs; non-trivial = a pattern was eliminated as overlapping or the default ownership was used; distinct by configuration and observation",
+		"service names {\"\",a,a.b} x ownership lists (nil / empty / exhaustive over valid entries of <= 2 tokens over {a,b,*,>} with <= 2 entries quick, <= 3 thorough / random <= 4 entries of <= 3 tokens with duplicates and nesting / malformed entries) x handler kinds x handler layout (1-3 Handle calls: nested patterns, placeholder / wildcard children, mounted muxes, root pattern, each with every choice of kinds) x queue group default/off/named x 0-2 further ResetAll; thorough adds an embedded nats-server differential of subject validity and matching and live reconnect runs; non-trivial = a pattern was eliminated as overlapping or the default ownership was used; distinct by configuration and observation",
 		cases, dist, extra, impl, 150)
 }
